@@ -109,6 +109,31 @@ fn build(r: &mut Rng64) -> (World, String) {
             let _ = node.call(Op::AddBroadcast(make_item(100 + i as u32, i as u8, 1, 12, 0x55)));
         }
     }
+    // family "mutual suspicion that was sorted out": 0 and 1 suspected each other (the rumours are still in their
+    // backlogs), both refuted, and each learned the other's new incarnation from a Feed sent by a third member
+    if n >= 3 && !victim_world && r.chance(1, 5) {
+        desc.push_str("[mutual suspicion of 0 and 1, refuted, learned from Feeds] ");
+        for (a, b) in [(0usize, 1usize), (1, 0)] {
+            let idb = nodes[b].id();
+            let incb = nodes[b].last.snap.incarnation;
+            let _ = nodes[a].call(Op::Apply(vec![Member::new(Id::new(idb.addr, idb.gen), incb, State::Alive)], true));
+            let _ = nodes[a].call(Op::Apply(vec![Member::new(Id::new(idb.addr, idb.gen), incb, State::Suspect)], true));
+        }
+        for a in [0usize, 1] {
+            if nodes[a].last.snap.connection_state != 2 {
+                let me = nodes[a].id();
+                let inc = nodes[a].last.snap.incarnation;
+                let _ = nodes[a].call(Op::Apply(vec![Member::new(me, inc, State::Suspect)], true));
+            }
+        }
+        for (a, b) in [(0usize, 1usize), (1, 0)] {
+            let (idc, incc) = (nodes[2].id(), nodes[2].last.snap.incarnation);
+            let (idb, incb) = (nodes[b].id(), nodes[b].last.snap.incarnation);
+            let h = Header { src: Id::new(idc.addr, idc.gen), src_incarnation: incc, dst: nodes[a].id(), message: Message::Feed };
+            let d = wire::build(codec, &h, Some(&[Member::new(Id::new(idb.addr, idb.gen), incb, State::Alive)]), &[]);
+            let _ = nodes[a].call(Op::Data(d));
+        }
+    }
     // a past: some members have refuted a suspicion before (whatever they sent then is long gone), and some have
     // learned the current incarnation of others from a Feed (the reply to an Announce) rather than from gossip
     if r.chance(1, 2) {
